@@ -65,7 +65,12 @@ def run_sp(species, coords, method="AM1", eps=1e-9, conv=(1,), sp2=(False,), cha
         charges = torch.as_tensor(np.asarray(charges))
     if not torch.is_tensor(mult) and not isinstance(mult, (int, float)):
         mult = torch.as_tensor(np.asarray(mult))
-    with silence() as buf:
+    guard = contextlib.nullcontext()
+    if sp.get("sp2", [False])[0]:
+        from .monitors import sp2_monitor
+
+        guard = sp2_monitor()  # SP2's purification loop has no iteration cap (C03): never hang a worker
+    with silence() as buf, guard:
         const = Constants()
         kw = {}
         if learned is not None:
